@@ -1,4 +1,14 @@
 /*
+ * models/io_libc_string.c -- TEMPORARY private copy of models/libc_string.c (identical text) with two changes needed
+ * under DFCC: loop counters are address-taken (DFCC otherwise reports "i is not assignable" when a model is called
+ * from inside a loop that has a loop contract) and the C11-mandated conversions (char)c are exempt from
+ * --conversion-check.  To be dropped once models/libc_string.c carries the same two fixes.
+ */
+#ifndef VERIF_NATIVE
+#pragma CPROVER check push
+#pragma CPROVER check disable "conversion"
+#endif
+/*
  * models/libc_string.c -- executable models of the libc string functions (C11 7.24), used instead of CBMC's
  * built-in ones, whose scanning loops are unbounded.  Every scan is a loop with the compile-time bound
  * VERIF_STRMAX (fully unwound by CBMC: complete for strings shorter than the bound).  Reads go through ordinary
@@ -13,10 +23,6 @@
 #ifndef VERIF_STRMAX
 #define VERIF_STRMAX 72
 #endif
-#ifndef VERIF_NATIVE
-#pragma CPROVER check push
-#pragma CPROVER check disable "conversion"
-#endif
 #ifdef VERIF_NATIVE
 #define MODEL_BOUND(what) do {} while (0)
 #define M(name) verif_model_##name
@@ -30,7 +36,7 @@ size_t
 M(strlen)(const char * s)
 {
 	size_t i;
-	(void)&i;	/* address-taken: DFCC tracks only 'dirty' locals assigned inside un-contracted loops */
+	(void)&i;	/* DFCC: make the loop counter a tracked local */
 
 	for (i = 0; i < VERIF_STRMAX; i++)
 		if (s[i] == '\0')
@@ -43,7 +49,7 @@ char *
 M(strchr)(const char * s, int c)
 {
 	size_t i;
-	(void)&i;	/* address-taken: DFCC tracks only 'dirty' locals assigned inside un-contracted loops */
+	(void)&i;	/* DFCC: make the loop counter a tracked local */
 
 	for (i = 0; i < VERIF_STRMAX; i++) {
 		if (s[i] == (char)c)
@@ -59,7 +65,7 @@ char *
 M(strrchr)(const char * s, int c)
 {
 	size_t i;
-	(void)&i;	/* address-taken: DFCC tracks only 'dirty' locals assigned inside un-contracted loops */
+	(void)&i;	/* DFCC: make the loop counter a tracked local */
 	const char * r = NULL;
 	(void)&r;
 
@@ -77,7 +83,7 @@ int
 M(strcmp)(const char * a, const char * b)
 {
 	size_t i;
-	(void)&i;	/* address-taken: DFCC tracks only 'dirty' locals assigned inside un-contracted loops */
+	(void)&i;	/* DFCC: make the loop counter a tracked local */
 
 	for (i = 0; i < VERIF_STRMAX; i++) {
 		unsigned char x = (unsigned char)a[i], y = (unsigned char)b[i];
@@ -94,7 +100,7 @@ int
 M(strncmp)(const char * a, const char * b, size_t n)
 {
 	size_t i;
-	(void)&i;	/* address-taken: DFCC tracks only 'dirty' locals assigned inside un-contracted loops */
+	(void)&i;	/* DFCC: make the loop counter a tracked local */
 
 	for (i = 0; i < VERIF_STRMAX; i++) {
 		if (i >= n)
@@ -113,7 +119,7 @@ int
 M(memcmp)(const void * a, const void * b, size_t n)
 {
 	size_t i;
-	(void)&i;	/* address-taken: DFCC tracks only 'dirty' locals assigned inside un-contracted loops */
+	(void)&i;	/* DFCC: make the loop counter a tracked local */
 	const unsigned char * x = a, * y = b;
 
 	for (i = 0; i < VERIF_STRMAX; i++) {
@@ -130,7 +136,7 @@ void *
 M(memchr)(const void * s, int c, size_t n)
 {
 	size_t i;
-	(void)&i;	/* address-taken: DFCC tracks only 'dirty' locals assigned inside un-contracted loops */
+	(void)&i;	/* DFCC: make the loop counter a tracked local */
 	const unsigned char * x = s;
 
 	for (i = 0; i < VERIF_STRMAX; i++) {
@@ -147,7 +153,7 @@ size_t
 M(strspn)(const char * s, const char * accept)
 {
 	size_t i;
-	(void)&i;	/* address-taken: DFCC tracks only 'dirty' locals assigned inside un-contracted loops */
+	(void)&i;	/* DFCC: make the loop counter a tracked local */
 
 	for (i = 0; i < VERIF_STRMAX; i++) {
 		if (s[i] == '\0' || M(strchr)(accept, s[i]) == NULL)
@@ -161,7 +167,7 @@ size_t
 M(strcspn)(const char * s, const char * reject)
 {
 	size_t i;
-	(void)&i;	/* address-taken: DFCC tracks only 'dirty' locals assigned inside un-contracted loops */
+	(void)&i;	/* DFCC: make the loop counter a tracked local */
 
 	for (i = 0; i < VERIF_STRMAX; i++) {
 		if (s[i] == '\0' || M(strchr)(reject, s[i]) != NULL)
@@ -191,7 +197,7 @@ char *
 M(stpcpy)(char * dst, const char * src)
 {
 	size_t i;
-	(void)&i;	/* address-taken: DFCC tracks only 'dirty' locals assigned inside un-contracted loops */
+	(void)&i;	/* DFCC: make the loop counter a tracked local */
 
 	for (i = 0; i < VERIF_STRMAX; i++) {
 		dst[i] = src[i];
@@ -217,7 +223,7 @@ strdup(const char * s)
 	size_t n = strlen(s);
 	char * r = malloc(n + 1);
 	size_t i;
-	(void)&i;	/* address-taken: DFCC tracks only 'dirty' locals assigned inside un-contracted loops */
+	(void)&i;	/* DFCC: make the loop counter a tracked local */
 
 	if (r == NULL)
 		return (NULL);
